@@ -58,6 +58,16 @@ func c18CheckTerm(tm *term, objs []metav1.Object) string {
 			return fmt.Sprintf("Accept=%v reference=%v for %s on %s", got, want, tm, describeObj(o))
 		}
 	}
+	// the same constructor call repeated over the very same argument values (one id slice, one label
+	// map, one selector object): both results must still follow the reference
+	f1, f2 := tm.buildTwice()
+	for i, g := range []filter.Filter{f1, f2} {
+		for _, o := range objs {
+			if got, want := g.Accept(o), tm.eval(o); got != want {
+				return fmt.Sprintf("filter number %d built from one set of argument values: Accept=%v reference=%v for %s on %s", i+1, got, want, tm, describeObj(o))
+			}
+		}
+	}
 	return ""
 }
 
